@@ -35,9 +35,14 @@ type Config struct {
 	Reader   string `json:"reader"` // none | readspec | freshcache
 	Mode     string `json:"mode"`   // crash | fault | schedule
 	Chunks   int    `json:"write_chunks"`
+	// PrevLink: the previous Spec file is a symbolic link to a regular file kept outside the directory
+	PrevLink bool `json:"previous_file_is_a_symbolic_link,omitempty"`
 }
 
 func (c Config) String() string {
+	if c.PrevLink {
+		return fmt.Sprintf("enc=%s prev=symlink dir=%v reader=%s mode=%s chunks=%d", c.Ext, c.DirExist, c.Reader, c.Mode, c.Chunks)
+	}
 	return fmt.Sprintf("enc=%s prev=%v dir=%v reader=%s mode=%s chunks=%d", c.Ext, c.Previous, c.DirExist, c.Reader, c.Mode, c.Chunks)
 }
 
@@ -179,7 +184,13 @@ func scenario(cfg Config, n *int) *explore.Scenario {
 			_ = os.MkdirAll(root, 0o755)
 		}
 		target := filepath.Join(dir, "target"+cfg.Ext)
-		if cfg.Previous && cfg.DirExist {
+		if cfg.Previous && cfg.DirExist && cfg.PrevLink {
+			store := filepath.Join(root, "store")
+			_ = os.MkdirAll(store, 0o755)
+			_ = os.WriteFile(filepath.Join(store, "old"+cfg.Ext), oldBytes[cfg.Ext], 0o644)
+			_ = os.Symlink(filepath.Join(store, "old"+cfg.Ext), target)
+			_ = os.WriteFile(filepath.Join(dir, "unrelated.txt"), []byte("x"), 0o644)
+		} else if cfg.Previous && cfg.DirExist {
 			_ = os.WriteFile(target, oldBytes[cfg.Ext], 0o644)
 			_ = os.WriteFile(filepath.Join(dir, "unrelated.txt"), []byte("x"), 0o644)
 		}
@@ -351,27 +362,31 @@ func configs(thorough bool) []Config {
 					continue
 				}
 				for _, chunks := range []int{1, 3} {
-					out = append(out, Config{ext, prev, dirExist, "none", "crash", chunks})
-					out = append(out, Config{ext, prev, dirExist, "none", "fault", chunks})
+					out = append(out, Config{ext, prev, dirExist, "none", "crash", chunks, false})
+					out = append(out, Config{ext, prev, dirExist, "none", "fault", chunks, false})
 				}
 				if thorough {
-					out = append(out, Config{ext, prev, dirExist, "none", "fault2", 2})
+					out = append(out, Config{ext, prev, dirExist, "none", "fault2", 2, false})
 				}
 				for _, mode := range []string{"crash", "fault"} {
-					out = append(out, Config{ext, prev, dirExist, "second-writer", mode, 2})
+					out = append(out, Config{ext, prev, dirExist, "second-writer", mode, 2, false})
+				}
+				if prev {
+					// the previous file reached through a symbolic link
+					out = append(out, Config{ext, prev, dirExist, "none", "crash", 3, true}, Config{ext, prev, dirExist, "none", "fault", 1, true}, Config{ext, prev, dirExist, "readspec", "schedule", 2, true})
 				}
 				for _, reader := range []string{"readspec", "freshcache"} {
 					mode := "schedule"
 					if thorough {
 						mode = "schedule3"
 					}
-					out = append(out, Config{ext, prev, dirExist, reader, mode, 2})
-					out = append(out, Config{ext, prev, dirExist, reader, "crash+reader", 2})
+					out = append(out, Config{ext, prev, dirExist, reader, mode, 2, false})
+					out = append(out, Config{ext, prev, dirExist, reader, "crash+reader", 2, false})
 					if thorough {
-						out = append(out, Config{ext, prev, dirExist, reader, "fault+schedule", 2})
-						out = append(out, Config{ext, prev, dirExist, reader, "schedule-all", 3})
-						out = append(out, Config{ext, prev, dirExist, reader, "crash+schedule-all", 2})
-						out = append(out, Config{ext, prev, dirExist, reader, "fault+schedule-all", 2})
+						out = append(out, Config{ext, prev, dirExist, reader, "fault+schedule", 2, false})
+						out = append(out, Config{ext, prev, dirExist, reader, "schedule-all", 3, false})
+						out = append(out, Config{ext, prev, dirExist, reader, "crash+schedule-all", 2, false})
+						out = append(out, Config{ext, prev, dirExist, reader, "fault+schedule-all", 2, false})
 					}
 				}
 			}
